@@ -33,14 +33,17 @@ def generate(tier, rng):
             t = gen.random_itier(rng, tmax=big, maxn=8, long_p=0.015)
             op = rng.choice(["space", "space_erase"])
         else:
-            t = gen.random_ptier(rng, tmax=big, long_p=0.015)
+            t = gen.random_ptier(rng, tmax=big, long_p=0.015, distinct=rng.random() < 0.75)
             op = "space"
+        d = rng.randint(1, big // 3)
         if rng.random() < 0.12:
             t = gen.shift_tier(t, -rng.randint(1, big))            # times before 0 are ordinary times here
+            if t["max"] < 0 and rng.random() < 0.4:
+                d = -t["max"]                                       # ... and the new end may be exactly 0
         s = rng.randint(t["min"], t["max"])
         if t["entries"] and rng.random() < 0.4:
             s = rng.choice([x for e in t["entries"] for x in e[:-1]])
-        cases.append({"op": op, "tier": t, "args": {"s": s, "d": rng.randint(1, big // 3), "mode": rng.choice(list(tierops.SPACE))},
+        cases.append({"op": op, "tier": t, "args": {"s": s, "d": d, "mode": rng.choice(list(tierops.SPACE))},
                       "scale": sc})
     for _ in range(300 if tier == "quick" else 3000):
         tiers = []
